@@ -50,6 +50,133 @@ pub struct TypeOps {
     /// decode -> encode -> decode -> encode (C07); None if the input is rejected
     pub roundtrip: fn(&[u8]) -> Option<Result<RoundTrip, String>>,
     pub roundtrip_tagged: Option<fn(&[u8]) -> Option<Result<RoundTrip, String>>>,
+    /// C01 follow-ups on an accepted value: clone, ==, Debug, re-encode, drop, and the type's
+    /// helpers under their documented preconditions (aad, detached payload supplied).
+    /// Returns whether the input was accepted.
+    pub follow: fn(&[u8], &[u8], &[u8]) -> bool,
+    pub follow_tagged: Option<fn(&[u8], &[u8], &[u8]) -> bool>,
+}
+
+/// Follow-up operations a decoded value supports beyond clone/==/Debug/encode/drop.
+pub trait Follow {
+    fn follow(&self, _aad: &[u8], _payload: &[u8]) {}
+}
+impl Follow for Label {
+    fn follow(&self, _aad: &[u8], _payload: &[u8]) {
+        let _ = self.cmp(self);
+        let _ = self.cmp_canonical(self);
+    }
+}
+impl<T: iana::EnumI64> Follow for RegisteredLabel<T> {}
+impl<T: iana::EnumI64 + iana::WithPrivateRange> Follow for RegisteredLabelWithPrivate<T> {}
+impl Follow for Header {
+    fn follow(&self, _aad: &[u8], _payload: &[u8]) {
+        let _ = self.is_empty();
+    }
+}
+impl Follow for ProtectedHeader {
+    fn follow(&self, _aad: &[u8], _payload: &[u8]) {
+        let _ = self.is_empty();
+        let _ = self.clone().cbor_bstr();
+    }
+}
+impl Follow for CoseSignature {}
+impl Follow for CoseSign {
+    fn follow(&self, aad: &[u8], payload: &[u8]) {
+        for (i, s) in self.signatures.iter().enumerate() {
+            let _ = self.tbs_data(aad, s);
+            let _: Result<(), u8> = self.verify_signature(i, aad, |_, _| Ok(()));
+            if self.payload.is_none() {
+                let _ = self.tbs_detached_data(payload, aad, s);
+                let _: Result<(), u8> = self.verify_detached_signature(i, payload, aad, |_, _| Err(1));
+            }
+        }
+    }
+}
+impl Follow for CoseSign1 {
+    fn follow(&self, aad: &[u8], payload: &[u8]) {
+        let _ = self.tbs_data(aad);
+        let _: Result<(), u8> = self.verify_signature(aad, |_, _| Ok(()));
+        if self.payload.is_none() {
+            let _ = self.tbs_detached_data(payload, aad);
+            let _: Result<(), u8> = self.verify_detached_signature(payload, aad, |_, _| Err(1));
+        }
+    }
+}
+fn follow_recipients(rs: &[CoseRecipient], aad: &[u8]) {
+    for r in rs {
+        r.follow(aad, &[]);
+    }
+}
+impl Follow for CoseRecipient {
+    fn follow(&self, aad: &[u8], _payload: &[u8]) {
+        if self.ciphertext.is_some() {
+            for c in [coset::EncryptionContext::EncRecipient, coset::EncryptionContext::MacRecipient, coset::EncryptionContext::RecRecipient] {
+                let _: Result<Vec<u8>, u8> = self.decrypt(c, aad, |_, _| Ok(vec![]));
+            }
+        }
+        follow_recipients(&self.recipients, aad);
+    }
+}
+impl Follow for CoseMac {
+    fn follow(&self, aad: &[u8], _payload: &[u8]) {
+        if self.payload.is_some() {
+            let _: Result<(), u8> = self.verify_tag(aad, |_, _| Ok(()));
+        }
+        follow_recipients(&self.recipients, aad);
+    }
+}
+impl Follow for CoseMac0 {
+    fn follow(&self, aad: &[u8], _payload: &[u8]) {
+        if self.payload.is_some() {
+            let _: Result<(), u8> = self.verify_tag(aad, |_, _| Err(2));
+        }
+    }
+}
+impl Follow for CoseEncrypt {
+    fn follow(&self, aad: &[u8], _payload: &[u8]) {
+        if self.ciphertext.is_some() {
+            let _: Result<Vec<u8>, u8> = self.decrypt(aad, |_, _| Ok(vec![]));
+        }
+        follow_recipients(&self.recipients, aad);
+    }
+}
+impl Follow for CoseEncrypt0 {
+    fn follow(&self, aad: &[u8], _payload: &[u8]) {
+        if self.ciphertext.is_some() {
+            let _: Result<Vec<u8>, u8> = self.decrypt(aad, |_, _| Err(3));
+        }
+    }
+}
+impl Follow for CoseKey {
+    fn follow(&self, _aad: &[u8], _payload: &[u8]) {
+        let mut k = self.clone();
+        k.canonicalize(coset::CborOrdering::Lexicographic);
+        let _ = k.clone().to_vec();
+        k.canonicalize(coset::CborOrdering::LengthFirstLexicographic);
+        let _ = k.to_vec();
+    }
+}
+impl Follow for CoseKeySet {
+    fn follow(&self, aad: &[u8], payload: &[u8]) {
+        for k in &self.0 {
+            k.follow(aad, payload);
+        }
+    }
+}
+impl Follow for ClaimsSet {}
+impl Follow for PartyInfo {}
+impl Follow for SuppPubInfo {}
+impl Follow for CoseKdfContext {}
+impl Follow for Value {}
+
+fn follow_all<T: Follow + Clone + PartialEq + std::fmt::Debug + CborSerializable>(v: T, aad: &[u8], payload: &[u8]) {
+    let c = v.clone();
+    let _ = v == c;
+    let _ = format!("{:?}", v);
+    v.follow(aad, payload);
+    let _ = c.to_vec();
+    drop(v);
 }
 
 pub struct RoundTrip {
@@ -106,6 +233,14 @@ macro_rules! ops {
                 })())
             },
             roundtrip_tagged: None,
+            follow: |b, aad, pl| match <$t>::from_slice(b) {
+                Ok(v) => {
+                    follow_all(v, aad, pl);
+                    true
+                }
+                Err(_) => false,
+            },
+            follow_tagged: None,
         }
     };
     ($t:ty, $name:expr, $shape:expr, tagged) => {{
@@ -113,6 +248,14 @@ macro_rules! ops {
         o.tag = Some(<$t as TaggedCborSerializable>::TAG);
         o.dec_tagged = Some(|b| <$t>::from_tagged_slice(b).map(|v| format!("{:?}", v)));
         o.recode_tagged = Some(|b| <$t>::from_tagged_slice(b).ok().map(|v| v.to_tagged_vec()));
+        o.follow_tagged = Some(|b, aad, pl| match <$t>::from_tagged_slice(b) {
+            Ok(v) => {
+                let _ = v.clone().to_tagged_vec();
+                follow_all(v, aad, pl);
+                true
+            }
+            Err(_) => false,
+        });
         o.roundtrip_tagged = Some(|b| {
             let v = <$t>::from_tagged_slice(b).ok()?;
             Some((|| {
